@@ -344,4 +344,19 @@ theorem breakStarts_inv {a0 : Rows} (fuel : Nat) (starts : List Nat) (a aEnd : R
       obtain ⟨g2, s2⟩ := ih a' g1 h
       exact ⟨g2, s2.trans s1⟩
 
+theorem edgeGone_mono {a a' : Rows} (hs : a'.Sub a) {rp : List Nat} (h : edgeGone a rp = true) :
+    edgeGone a' rp = true := by
+  match rp with
+  | [] => simp [edgeGone] at h
+  | [_] => simp [edgeGone] at h
+  | last :: prev :: _ =>
+    simp only [edgeGone, Bool.not_eq_eq_eq_not, Bool.not_true] at h ⊢
+    cases hh : a'.has prev last with
+    | false => rfl
+    | true =>
+      have : last ∈ a'.row prev := by simpa [Rows.has] using hh
+      have := hs.2 prev last this
+      simp [Rows.has, this] at h
+
+
 end SkNet.Cycles
